@@ -308,7 +308,7 @@ Section QU.
                     ltac:(change (vk s1) with (vk s - 1)%nat; change (hh s1) with (hh s); lia) Hpos
                     ltac:(change (vk s1) with (vk s - 1)%nat; change (vn s1) with (vn s); lia)
                     (Permutation_refl _))
-          as (s2 & c2 & E2 & HR2 & HE2 & HP2 & Hsum2 & Ek2 & En2 & Eg2).
+          as (s2 & c2 & E2 & HR2 & HE2 & HP2 & Hsum2 & Ek2 & En2 & Eg2 & _).
         rewrite E2 in E. injection E as <- <-.
         split; [now apply Rest_Est_G|]. split; [exact En2|].
         split; [rewrite Hsum2; change (vH s1) with (vH s); lra|]. split; [exact Ek2|]. split; [lia|]. split; [exact Eg2|].
@@ -351,7 +351,7 @@ Section QU.
       unfold update_inner, Qbad in E. rewrite (Qltb_ge (s_wt pulled) 0) in E by lra.
       destruct (Qeq_bool (s_wt pulled) 0) eqn:E0; [apply Qeq_bool_iff in E0; lra|].
       destruct (update_body_spec Item ditem cu s1 (s_item pulled) (s_wt pulled) (s_mark pulled) c inp HR1 HP1 Hpw)
-        as (s2 & c2 & E2 & HR2 & HP2 & Hsum2 & En2 & Ek2 & Eg2 & Hest2).
+        as (s2 & c2 & E2 & HR2 & HP2 & Hsum2 & En2 & Ek2 & Eg2 & Hest2 & _).
       rewrite E2 in E. injection E as <- <-.
       destruct (Hest2 HE1) as [HE2 _].
       split; [now apply Rest_Est_G|]. split; [rewrite En2; change (vn s1) with (vn s - 1)%Z; lia|].
